@@ -43,6 +43,10 @@ func loopRerunTable() []*Program {
 		// run 1 yields, run 2 is left by break before any yield of that outer iteration, run 3 only makes
 		// non-yielding iterations and ends through its condition; then the generator yields once more
 		{"yield-break-silent", "if i == 1 {\n\t\t\t\tbreak\n\t\t\t}\n\t\t\tif i == 0 {\n\t\t\t\t$YIELD{j}\n\t\t\t}\n\t\t\tn++"},
+		// run 1: the first iteration yields, the SECOND one (started by the loop driver after the resumption) breaks before
+		// yielding, so the code after the loop and the next outer iteration run nested inside that driver; run 2 only makes
+		// non-yielding iterations and ends through its condition; whatever suspends next unwinds into run 1's driver
+		{"yield-then-next-iteration-breaks-then-silent-run", "if n == 1 && i == 0 {\n\t\t\t\tbreak\n\t\t\t}\n\t\t\tif i == 0 {\n\t\t\t\t$YIELD{j}\n\t\t\t}\n\t\t\tn++"},
 		{"return-inside", "if i == 2 && j == 1 {\n\t\t\t\t$RET\n\t\t\t}\n\t\t\t$YIELD{i*10 + j}"},
 	}
 	afters := []struct{ name, text string }{
